@@ -778,10 +778,18 @@ impl<'a> Exec<'a> {
                 let e = reg(regs, a(0))?;
                 let shares = self.ctx.splits.get(&a(1).to_string()).ok_or("sskr_pick_more: split not cached")?;
                 let (g, m) = (a(2).as_u64().unwrap() as usize, a(3).as_u64().unwrap() as usize);
-                let of_split: Vec<Envelope> = shares.iter().flatten().flat_map(|s| s.assertions_with_predicate(known_values::SSKR_SHARE)).collect();
+                // the share assertion a split added to a member = what that member's envelope has and the split's
+                // source had not (the source may already have carried shares of an earlier split)
+                let members: Vec<&Envelope> = shares.iter().flatten().collect();
+                let own = |s: &Envelope| -> Vec<Envelope> {
+                    s.assertions_with_predicate(known_values::SSKR_SHARE).into_iter()
+                        .filter(|x| members.len() < 2 || !members.iter().all(|o| o.assertions().iter().any(|y| y.digest() == x.digest())))
+                        .collect()
+                };
+                let of_split: Vec<Envelope> = members.iter().flat_map(|s| own(s)).collect();
                 let mine = e.assertions_with_predicate(known_values::SSKR_SHARE).into_iter().find(|x| of_split.iter().any(|y| y.digest() == x.digest()))
                     .ok_or("sskr_pick_more: the register holds no share of that split")?;
-                let other = shares[g - 1][m - 1].assertions_with_predicate(known_values::SSKR_SHARE).into_iter().next().ok_or("sskr_pick_more: share")?;
+                let other = own(&shares[g - 1][m - 1]).into_iter().next().ok_or("sskr_pick_more: share")?;
                 res(e.remove_assertion(mine).add_assertion_envelope(other))
             }
             "sskr_join" => {
@@ -1041,9 +1049,9 @@ impl<'a> Exec<'a> {
 
 pub fn date_of(v: &Value) -> Option<dcbor::Date> {
     match v.as_str().unwrap_or("") {
-        "int" => Some(dcbor::Date::from_timestamp(1_700_000_000.0)),
-        "frac" => Some(dcbor::Date::from_timestamp(0.5)),
-        "neg" => Some(dcbor::Date::from_timestamp(-86400.0)),
+        "int" => Some(dcbor::Date::from_timestamp(1_600_000_000.0)),
+        "frac" => Some(dcbor::Date::from_timestamp(1.5)),
+        "neg" => Some(dcbor::Date::from_timestamp(-172800.0)),
         _ => None,
     }
 }
